@@ -35,6 +35,16 @@ type NativeOutcome struct {
 // NativeReplay runs the given vectors through the same harness functions compiled
 // natively against /repo (go test -overlay). All harnesses must live in pkgDir.
 func (p *Program) NativeReplay(pkgDir string, pkgName string, vectors []NativeVector, timeout time.Duration) ([]NativeOutcome, string, error) {
+	return p.nativeReplay(pkgDir, pkgName, vectors, timeout, false)
+}
+
+// NativeReplaySlow is NativeReplay with ten times longer settling pauses (rt.Quiesce), used to
+// re-check a witness whose first native run disagreed with the engine before calling it a mismatch.
+func (p *Program) NativeReplaySlow(pkgDir string, pkgName string, vectors []NativeVector, timeout time.Duration) ([]NativeOutcome, string, error) {
+	return p.nativeReplay(pkgDir, pkgName, vectors, timeout, true)
+}
+
+func (p *Program) nativeReplay(pkgDir string, pkgName string, vectors []NativeVector, timeout time.Duration, slow bool) ([]NativeOutcome, string, error) {
 	if len(vectors) == 0 {
 		return nil, "", nil
 	}
@@ -88,6 +98,9 @@ func (p *Program) NativeReplay(pkgDir string, pkgName string, vectors []NativeVe
 		cmd.Dir = p.Repo
 		cmd.Env = append(os.Environ(), "GOFLAGS=-mod=mod", "GOPROXY=off", "GOSUMDB=off", "GOTOOLCHAIN=local",
 			"SYMX_INPUT="+inFile, "SYMX_OUTPUT="+outFile)
+		if slow {
+			cmd.Env = append(cmd.Env, "SYMX_SLOW=1")
+		}
 		var ob bytes.Buffer
 		cmd.Stdout, cmd.Stderr = &ob, &ob
 		runErr := cmd.Run()
